@@ -1303,7 +1303,8 @@ pub fn failing_condition_programs() -> Vec<(Prog, String)> {
                             main.push(b.print(vec![var("R%")]));
                         }
                         _ => {
-                            let body = vec![say(&mut b, "body"), b.assign(var("H%"), num(1))];
+                            // bottom-tested loops reach the condition after the body: the body must leave H% alone
+                            let body = if pi >= 6 { vec![say(&mut b, "body")] } else { vec![say(&mut b, "body"), b.assign(var("H%"), num(1))] };
                             let k = match pi {
                                 3 => K::While(cond, body),
                                 4 => K::Do(DoKind::WhileTop, cond, body),
